@@ -106,6 +106,20 @@ def rule_rec(prog):
             pf = [b for b, t in f.calls() if (callee_name(t) or "").split("::")[-1] == "push_front"]
             if true_t and pf and not any(b in f.reach_from(true_t[0], avoid=[nb, cb]) for b in pf):
                 ok = True
+    if not ok:
+        # the test may sit behind a helper (`state.is_playing(id)`, analysed inlined): follow the tested value back to contains()
+        from kq.core import Resolver, is_place
+        cset = {cb for cb, _ in cons}
+        for sb in sorted(f.reachable()):
+            tt = f.term(sb)
+            if tt["k"] != "switch" or tt.get("dty") != "bool" or not is_place(tt["d"]):
+                continue
+            r = Resolver(f).root(tt["d"])
+            if r[0] == "call" and r[1][0] in cset:
+                true_t = [tb for v, tb in tt["ts"] if v == 1] or ([tt["o"]] if any(v == 0 for v, _ in tt["ts"]) else [])
+                pf = [b for b, t in f.calls() if (callee_name(t) or "").split("::")[-1] == "push_front"]
+                if true_t and pf and not any(b in f.reach_from(true_t[0], avoid=[sb]) for b in pf):
+                    ok = True
     res.inst("contains-guard", ok=ok)
     res.oblige(ok)
     if not ok:
@@ -157,6 +171,46 @@ def rule_order(prog):
                 res.viol("marker-behind-items/%s" % mk, "%s:%s" % (f.file, mt.get("ln")),
                          "EndMacro(id) is queued in front of the macro's items (%s order): the id leaves active_macros before the items "
                          "run, so a macro that contains its own play key replays itself without end" % mk)
+    if not marks:
+        # one loop over `items.chain([EndMacro(id)])`: the marker is behind the items in the chained iterator, so it has to be
+        # pushed in that order with push_back, or in reverse (`.rev()`) with push_front
+        from kq.core import Resolver, is_place
+        from rules.r_loopvar import iterator_driver, loops_of
+        R = Resolver(f)
+
+        def holds_marker(op):
+            r = R.root(op)
+            if r[0] == "agg" and r[1][2].get("adt") == ITEM:
+                return r[1][2].get("v") == "EndMacro"
+            if r[0] == "agg" and "arr" in r[1][2]:
+                return any(holds_marker(o) for o in r[1][2]["ops"])
+            if r[0] == "call" and (callee_name(r[1][1]) or "").split("::")[-1] in ("into_iter", "iter", "once"):
+                return any(holds_marker(a) for a in r[1][1]["args"] if is_place(a))
+            return False
+        chains = [(b, t) for b, t in f.calls() if (callee_name(t) or "").split("::")[-1] == "chain" and len(t["args"]) == 2]
+        for cb, ct in chains:
+            second, first = holds_marker(ct["args"][1]), holds_marker(ct["args"][0])
+            if not (second or first):
+                continue
+            for lp in loops_of(f):
+                ty = iterator_driver(f, lp) or ""
+                if "Chain<" not in ty or not f.dominates(cb, lp.h):
+                    continue
+                for (ib, ik, it) in items:
+                    if ib not in lp.body:
+                        continue
+                    n += 1
+                    marker_last = second and not first
+                    reversed_ = "Rev<" in ty
+                    ok = marker_last and ((ik == "push_front") == reversed_)
+                    marks.append((cb, ik, ct))
+                    res.inst("marker-behind-items#%d" % n, how="chain + %s%s" % (ik, " + rev" if reversed_ else ""), ok=ok)
+                    res.oblige(ok)
+                    if not ok:
+                        res.viol("marker-behind-items/%s" % ik, "%s:%s" % (f.file, ct.get("ln")),
+                                 "EndMacro(id) is queued in front of the macro's items (chained iterator, %s%s): the id leaves "
+                                 "active_macros before the items run, so a macro that contains its own play key replays itself "
+                                 "without end" % (ik, ", reversed" if reversed_ else ""))
     if not marks:
         res.viol("anchors", f.loc, "play_macro no longer queues an EndMacro marker")
     return res
